@@ -70,7 +70,7 @@ package rag
 // Splitting: terminates; every piece is a non-empty substring of the input, pieces are in order and do not overlap.
 // (Stated without semantic boundaries: adjustBoundaryPositions ignores the white space trimmed from the remainder.)
 //@ func (*SizeCalculator) SplitToSize results (res)
-//@   property C13
+//@   property C13, C12
 //@   flags readonly
 //@   requires sc.config.Max.Value >= 0 && sc.config.TokensPerChar > 0.0
 //@   requires no_semantic_boundaries: len(boundaries) == 0
@@ -80,6 +80,11 @@ package rag
 //@     invariant samebase(remaining, text) && off(text) <= off(remaining) && off(remaining) + len(remaining) <= off(text) + len(text) && len(boundaries) == 0
 //@     invariant forall k int :: {chunks[k]} 0 <= k && k < len(chunks) ==> samebase(chunks[k], text) && off(text) <= off(chunks[k]) && off(chunks[k]) + len(chunks[k]) <= off(remaining) && len(chunks[k]) > 0
 //@     invariant forall k int :: {chunks[k]} 0 <= k && k + 1 < len(chunks) ==> off(chunks[k]) + len(chunks[k]) <= off(chunks[k+1])
+// C12/C13: a split loses nothing but white space: what is cut off the front of the remainder is the new piece plus
+// trimmed white space, and the new remainder starts at the split position plus trimmed white space
+//@     step piece_is_the_front_part_minus_white_space: samebase(chunk, text) && (chunk != "" ==> len(chunks) == prev(len(chunks)) + 1 && same(chunks[len(chunks)-1], chunk)) && forall q int :: {text[q]} off(prev(remaining)) - off(text) <= q && q < off(prev(remaining)) + splitPos - off(text) && !(chunk != "" && off(chunk) - off(text) <= q && q < off(chunk) + len(chunk) - off(text)) ==> trimbyte(text[q])
+//@     step remainder_starts_at_the_split_minus_white_space: off(remaining) >= off(prev(remaining)) + splitPos && forall q int :: {text[q]} off(prev(remaining)) + splitPos - off(text) <= q && q < off(remaining) - off(text) ==> trimbyte(text[q])
+//@     step remainder_keeps_its_end_minus_white_space: forall q int :: {text[q]} off(remaining) + len(remaining) - off(text) <= q && q < off(prev(remaining)) + len(prev(remaining)) - off(text) ==> trimbyte(text[q])
 //@     decreases len(remaining)
 
 //@ func adjustBoundaryPositions results (adjusted)
